@@ -96,14 +96,10 @@ func main() {
 		target := 0
 		if nearLimit {
 			elems = append(gen.Template(r, lib.Pool, r.IntN(4)), lib.CustomElems[8]) // ... , vfString
-			rec := gen.Records(r, elems[:len(elems)-1], 1, 2000)
+			rec := [][][]byte{gen.One(r, elems[:len(elems)-1], 2000)}
 			fixed := 20
-			if len(rec) == 1 {
-				for j, p := range rec[0] {
-					fixed += gen.EncLen(elems[j].Len, p)
-				}
-			} else {
-				rec = [][][]byte{{}}
+			for j, p := range rec[0] {
+				fixed += gen.EncLen(elems[j].Len, p)
 			}
 			target = 65500 + r.IntN(61)
 			str := gen.Bytes(r, target-fixed-3)
